@@ -1,5 +1,76 @@
-(* C33: HTTP/2 inbound flow control is enforced and replenished.  Property theorems only. *)
+(* C33: HTTP/2 inbound flow control is enforced and replenished.  Property theorems only.
+   Model: model/H2Flow.v (flow.go) + model/H2Stream.v (serve-loop steps of bfe_http2/server.go);
+   c_inflow = sc.inflow.n, s_inflow = st.inflow.n, s_buf = unread octets in the request body pipe. *)
 From Coq Require Import List ZArith Bool.
-From Bfe Require Import lib.Val model.H2Flow model.H2Stream run.RunC33.
+From Bfe Require Import lib.Val model.H2Flow model.H2Stream run.RunC33 proofs.H2StreamProofs.
 Import ListNotations.
 Open Scope Z_scope.
+
+(* Headline.  In every state reachable by any well-formed script of client frames and handler actions
+   (connection still alive): the connection window plus all unread buffered octets never exceeds the
+   initial 65535 (nothing is over-advertised); it is EXACTLY 65535 unless a stream was closed while its
+   pipe still held unread octets (ghost flag c_p3, known finding 1); every open stream has window +
+   unread = its initial window exactly; no stream ever exceeds it. *)
+Theorem C33_conservation : forall c,
+  reach c -> c_dead c = false ->
+  c_inflow c + sumbuf (c_streams c) <= init_window /\
+  (c_p3 c = false -> c_inflow c + sumbuf (c_streams c) = init_window) /\
+  (forall st, In st (c_streams c) -> s_state st = 1 -> s_inflow st + s_buf st = c_isw c) /\
+  (forall st, In st (c_streams c) -> 0 <= s_buf st /\ s_inflow st + s_buf st <= c_isw c).
+Proof. exact conservation. Qed.
+Print Assumptions C33_conservation.
+
+(* The unguarded equation is false of the code as it is: RST_STREAM while 60 octets are unread
+   (default window: closeStream releases the buffer, no connection-level WINDOW_UPDATE). *)
+Theorem C33_conservation_refuted :
+  exists c, reach c /\ c_dead c = false /\ c_inflow c + sumbuf (c_streams c) < init_window.
+Proof. exact conservation_refuted. Qed.
+Print Assumptions C33_conservation_refuted.
+
+(* One serve-loop step, any state satisfying the invariant: no panic site; the invariant is kept; and
+   if the frame is within the windows, the server's connection window moves exactly as the client
+   computes it: minus the DATA frame length (padding included), plus the WINDOW_UPDATE(0) increments
+   written in this step.  (Since the two fixes in /repo this holds on every path, including
+   content-length overrun and writes to a closed body.) *)
+Theorem C33_step_exact : forall c o c' evs,
+  Good c -> c_bug c = false -> wf_op o = true -> step c o = (c', evs) ->
+  c_bug c' = false /\
+  (c_dead c' = false ->
+   Good c' /\ c_isw c' = c_isw c /\ (within c o -> c_inflow c' = c_inflow c - debit o + wu_of evs 0)).
+Proof. exact step_post. Qed.
+Print Assumptions C33_step_exact.
+
+(* Whole histories: for a client that respects the windows, the window it reconstructs from its own
+   DATA frames and the WINDOW_UPDATE frames it received equals the server's at every barrier. *)
+Theorem C33_never_over_advertised : forall ops c c' out,
+  Good c -> c_bug c = false -> c_dead c = false -> forallb wf_op ops = true -> respects c ops ->
+  run_ops c ops = (c', out) -> c_dead c' = false ->
+  c_inflow c' = view_run (c_inflow c) ops out.
+Proof. exact client_view_exact. Qed.
+Print Assumptions C33_never_over_advertised.
+
+(* Excess is answered with RST_STREAM(FLOW_CONTROL_ERROR) and nothing is taken. *)
+Theorem C33_excess_is_flow_error : forall c id dlen pad es c' evs,
+  Good c -> c_bug c = false -> wf_op (OData id dlen pad es) = true -> id <> 0 ->
+  c_inflow c < frame_len dlen pad ->
+  step_data c id dlen pad es = (c', evs) -> evs = [(2, id, 3)] /\ c_inflow c' = c_inflow c.
+Proof. exact excess_conn_is_flow_error. Qed.
+Print Assumptions C33_excess_is_flow_error.
+
+Theorem C33_stream_excess_is_flow_error : forall c st dlen pad es c' evs,
+  Good c -> c_bug c = false -> wf_op (OData (s_id st) dlen pad es) = true ->
+  find_live (s_id st) (c_streams c) = Some st -> s_state st = 1 -> s_trailer st = false ->
+  (negb (s_decl st =? -1) && (s_decl st <? s_bytes st + dlen)) = false ->
+  s_inflow st < frame_len dlen pad -> 0 < frame_len dlen pad ->
+  step_data c (s_id st) dlen pad es = (c', evs) -> evs = [(2, s_id st, 3)].
+Proof. exact excess_stream_is_flow_error. Qed.
+Print Assumptions C33_stream_excess_is_flow_error.
+
+(* Non-vacuity: a padded DATA frame, a partial read, a content-length overrun (refunded since the fix). *)
+Example C33_nonvacuous :
+  let ops := [OHeaders 1 false 0 5; OData 1 3 7 false; ORead 1 2; OData 1 9 (-1) false] in
+  wf_cfg 100 0 = true /\ forallb wf_op ops = true /\
+  snd (run_ops (init_conn 100 0) ops) =
+    [[]; [(1, 0, 8); (1, 1, 8)]; [(1, 0, 2); (1, 1, 2); (6, 1, 2)]; [(1, 0, 9); (2, 1, 1)]] /\
+  c_inflow (fst (run_ops (init_conn 100 0) ops)) = 65534.
+Proof. exact (conj eq_refl (conj eq_refl (conj eq_refl eq_refl))). Qed.
